@@ -72,8 +72,59 @@ def attrs(fn_ast):
     return sorted({n.attr for n in ast.walk(fn_ast) if isinstance(n, ast.Attribute)})
 
 
+def free_names(fn):
+    """identifiers a function READS that it does not bind itself (parameters, assignment / walrus / for / with targets,
+    comprehension variables): what it takes from its module — helpers, singletons, any module-level STATE."""
+    src = ast.parse(textwrap.dedent(inspect.getsource(fn))).body[0]
+    bound = {a.arg for a in src.args.posonlyargs + src.args.args + src.args.kwonlyargs}
+    bound |= {a.arg for a in (src.args.vararg, src.args.kwarg) if a is not None}
+    loads = set()
+    for n in ast.walk(ast.Module(body=src.body, type_ignores=[])):
+        if isinstance(n, ast.Name):
+            (loads if isinstance(n.ctx, ast.Load) else bound).add(n.id)
+    return sorted(loads - bound)
+
+
+def module_level_state(module):
+    """identifiers the module's own top-level code binds by ASSIGNMENT (plain / annotated / augmented / walrus / for / with,
+    also below if / try): everything that is not an import, a def or a class — i.e. objects created at import time that
+    live as long as the process."""
+    tree = ast.parse(inspect.getsource(module))
+    out = set()
+
+    def stmts(body):
+        for st in body:
+            if isinstance(st, (ast.FunctionDef, ast.AsyncFunctionDef, ast.ClassDef, ast.Import, ast.ImportFrom)):
+                continue
+            if isinstance(st, ast.Expr) and isinstance(st.value, ast.Constant):
+                continue
+            for f in ("body", "orelse", "finalbody"):
+                stmts(getattr(st, f, []) or [])
+            for h in getattr(st, "handlers", []) or []:
+                stmts(h.body)
+            heads = [st] if not hasattr(st, "body") else [getattr(st, "target", None)] + [i.optional_vars for i in getattr(st, "items", [])]
+            for h in heads:
+                if h is None:
+                    continue
+                for n in ast.walk(h):
+                    if isinstance(n, ast.Name) and isinstance(n.ctx, ast.Store):
+                        out.add(n.id)
+    stmts(tree.body)
+    return sorted(out)
+
+
+def call_args(fn, callee):
+    """the argument spellings of every call to `callee` inside `fn`."""
+    out = []
+    for n in ast.walk(_fn_ast(fn)):
+        if isinstance(n, ast.Call) and _spell(n.func) == callee:
+            out.append(", ".join([_spell(a) or "<expr>" for a in n.args] + [f"{k.arg}={_spell(k.value) or '<expr>'}" for k in n.keywords]))
+    return sorted(out)
+
+
 def tables():
-    from rattr.analyser.function import FunctionAnalyser
+    import rattr.analyser.function as function_module
+    from rattr.analyser.function import FunctionAnalyser, custom_analyser_for_target
     from rattr.analyser.util import get_function_body
     from rattr.models.context import Context
     from rattr.models.symbol import CallInterface
@@ -99,4 +150,10 @@ def tables():
         f"def lambdaFields : List String := {llist(list(ast.Lambda._fields))}",
         f"def argumentsFields : List String := {llist(list(ast.arguments._fields))}",
         f"def argFields : List String := {llist(list(ast.arg._fields))}",
+        # which plug-in analyser handles a call: chosen from the call node and the CURRENT context, from nothing that
+        # outlives the analysis of one callable (RattrModel `FnA.visit` / `C02.calleeAnalyser`)
+        f"def customAnalyserFreeNames : List String := {llist(free_names(custom_analyser_for_target))}",
+        f"def customAnalyserParams : List String := {llist([a.arg for a in ast.parse(textwrap.dedent(inspect.getsource(custom_analyser_for_target))).body[0].args.args])}",
+        f"def customAnalyserCalledWith : List String := {llist(call_args(FunctionAnalyser.visit_Call, 'custom_analyser_for_target'))}",
+        f"def functionModuleState : List String := {llist(module_level_state(function_module))}",
     ]
